@@ -320,9 +320,10 @@ def rule_RQ(run: Run) -> RuleResult:
         bodies = [c.methods[meth]] + [c.methods[x.func.attr] for x in astu.calls_in(c.methods[meth]) if isinstance(x.func, ast.Attribute) and astu.is_self_attr(x.func) and x.func.attr in c.methods]
         found = set()
         for b in bodies:
+            amap_b = astu.single_assign_map(b)
             for x in astu.calls_in(b):
                 if isinstance(x.func, ast.Attribute) and x.func.attr == "run" and not x.args:
-                    inner = x.func.value
+                    inner = astu.expand_locals(x.func.value, amap_b)
                     if isinstance(inner, ast.Call):
                         nm2 = astu.short_name(inner)
                         if nm2 == "_request":
